@@ -30,6 +30,8 @@ def clone_state(root):
                 n = PDict()
                 memo[k] = (v, n)
                 n.d = {kk: cl(x) for kk, x in v.d.items()}
+                n.sym = dict(v.sym) if v.sym is not None else None
+                n.symtok = (v.symtok[0], cl(v.symtok[1])) if v.symtok is not None else None
             elif isinstance(v, PObj):
                 n = PObj(v.cls)
                 memo[k] = (v, n)
@@ -104,8 +106,14 @@ def merge_into(ex, c, st1, st2_roots, env):
                 b.items = [mv(x, y, where + "[]") for x, y in zip(a.items, b.items)]
                 return b
             if isinstance(b, PDict):
-                if set(a.d) != set(b.d):
+                if set(a.d) != set(b.d) or (a.sym is None) != (b.sym is None) or (a.symtok is None) != (b.symtok is None):
                     raise _abort(where)
+                if b.sym is not None:
+                    for fld in ("dom", "val"):
+                        x, y = a.sym[fld], b.sym[fld]
+                        b.sym[fld] = y if x.eq(y) else z3.If(c, x, y)
+                if b.symtok is not None:
+                    b.symtok = (b.symtok[0], mv(a.symtok[1], b.symtok[1], where + "[tok]"))
                 for k in b.d:
                     b.d[k] = mv(a.d[k], b.d[k], f"{where}[{k!r}]")
                 return b
